@@ -92,6 +92,15 @@ func (p *pipeline) executeStage(parentStageID string, stage stagepkg.Stage) {
 	stageID := uuid.New().String()
 	p.sm.executeStage(parentStageID, stageID, stage)
 
+	defer func() {
+		if r := recover(); r != nil {
+			// stage panics on current goroutine, it will never be completed,
+			// so complete the pipeline with error, then keep panicking for the caller's recover.
+			p.sm.complete(errorpkg.Error(r))
+			panic(r)
+		}
+	}()
+
 	stage.Execute(stage.Plan(), func() {
 		// after current stage execute completed, then plan next stages
 		nextStages := stage.NextStages()
